@@ -639,7 +639,10 @@ class Tally(StatisticsInterface):
         """
         n = float(self._n)
         if n > 1:
-            skew_biased = (self._m3 / n) / self.variance() ** 1.5 
+            var = self.variance()
+            if not var > 0:
+                return math.nan
+            skew_biased = (self._m3 / n) / var ** 1.5 
             if biased:
                 return skew_biased
             elif n > 2:
@@ -687,10 +690,12 @@ class Tally(StatisticsInterface):
         if biased:
             if n > 2:
                 d2 = (self._m2 / n)
-                return (self._m4 / n) / d2 / d2
+                if d2 > 0:
+                    return (self._m4 / n) / d2 / d2
         elif n > 3:
             svar = self.variance(False)
-            return self._m4 / (n - 1) / svar / svar
+            if svar > 0:
+                return self._m4 / (n - 1) / svar / svar
         return math.nan
     
     def excess_kurtosis(self, biased: bool=True) -> float:
